@@ -4,7 +4,8 @@
 import json, os, re, subprocess, sys
 WT = '/tmp/wt/regress'
 ROOT = '/verif/seeded'
-EXTRA = {'C04-a': ['C05'], 'C09-a': ['C06', 'C09'], 'C03-b': ['C14'], 'C04-b': ['C16'], 'C06-b': ['C08'], 'C08-b': ['C06']}
+EXTRA = {'C04-a': ['C05'], 'C09-a': ['C06', 'C09'], 'C03-b': ['C14'], 'C04-b': ['C16'], 'C06-b': ['C08'], 'C08-b': ['C06'],
+         'C02-c': ['C14'], 'C03-c': ['C01'], 'C10-c': ['C09'], 'C14-c': ['C05']}
 
 
 def sh(cmd, **kw):
@@ -27,6 +28,9 @@ def main():
         if r.returncode != 0:
             rows.append((sid, 'PATCH DOES NOT APPLY', r.stderr.strip()[:100])); continue
         meta = json.load(open(f'{d}/meta.json'))
+        if 'neutralised' in meta.get('note', ''):
+            print(sid, 'skipped (neutralised by a fix; see its meta.json)', flush=True)
+            continue
         own = meta['property']
         checks = [own] + [c for c in EXTRA.get(sid, []) if c != own]
         det = []
